@@ -159,6 +159,27 @@ pub fn gen_c11(base_seed: u64, batch: &str, run: u64, rng: &mut Rng) -> Scenario
         threads[0].push(Op::Drop { slot: call_slot });
         threads[0].push(Op::Drop { slot: 0 });
     }
+    // a mock that is born and dropped inside somebody's unwinding (a fixture destructor)
+    if rng.chance(1, 8) {
+        let t = rng.usize(threads.len());
+        let at = if t == 0 { prelude.min(threads[0].len()) } else { 0 };
+        threads[t].insert(at, Op::UnwindScratch { unmet: rng.chance(2, 3), with_clone: rng.chance(1, 2) });
+    }
+    let mut knobs = vec![("prelude".into(), prelude as i64), ("topology".into(), topo as i64), ("origin".into(), origin as i64), ("dying_thread".into(), dying as i64)];
+    // environment fault: the process's stderr cannot be written (full device). Dropping a mock on an
+    // unwinding thread must not depend on it. (report() prints its findings to stderr by design, so
+    // these runs verify explicitly instead.)
+    if rng.chance(1, 16) && std::path::Path::new("/dev/full").exists() {
+        knobs.push(("isolated".into(), 1));
+        knobs.push(("stderr_full".into(), 1));
+        for t in threads.iter_mut() {
+            for op in t.iter_mut() {
+                if let Op::Report { slot } = op {
+                    *op = Op::Verify { slot: *slot };
+                }
+            }
+        }
+    }
     Scenario {
         prop: "C11".into(),
         base_seed,
@@ -168,7 +189,7 @@ pub fn gen_c11(base_seed: u64, batch: &str, run: u64, rng: &mut Rng) -> Scenario
         config2: None,
         threads,
         sched: SchedSpec { fine: false, strategy: Strategy::Uniform, seed: rng.next(), sites: 0, choices: vec![] },
-        knobs: vec![("prelude".into(), prelude as i64), ("topology".into(), topo as i64), ("origin".into(), origin as i64), ("dying_thread".into(), dying as i64)],
+        knobs,
     }
 }
 
@@ -229,6 +250,12 @@ pub fn check_c11(scn: &Scenario) -> Checked {
     }
     let mut violations: Vec<Violation> = vec![];
     let probe = |st: &mut RunStats, k: String| *st.probes.entry(k).or_default() += 1;
+    if scn.threads.iter().flatten().any(|o| matches!(o, Op::UnwindScratch { .. })) && res.log.ops.iter().any(|o| matches!(scn.threads.get(o.thread as usize).and_then(|t| t.get(o.index as usize)), Some(Op::UnwindScratch { .. }))) {
+        *stats.faults.entry("mock_built_and_dropped_while_unwinding".into()).or_default() += 1;
+    }
+    if scn.knob("stderr_full") == Some(1) {
+        *stats.faults.entry("stderr_rejects_every_write".into()).or_default() += 1;
+    }
     if scn.batch == "caught-user-panics" {
         // the mock stays usable and verification reflects the calls actually matched
         let flat = scn.config.flatten();
